@@ -13,8 +13,12 @@ def main(argv):
     t0 = time.time()
     res = eng.verify_unit(unit)
     print('== %s: %d obligations, paths=%d, gen %.2fs, error=%s' % (unit, len(res.obligations), res.paths, res.gen_time, res.error))
+    from .cli import solve_text
+    from .solve import smt2_of
     for ob in res.obligations:
-      discharge(ob, 10000)
+      if ob.status != 'proved':
+        r = solve_text((smt2_of(ob.hyps, ob.goal), 20000, False))
+        ob.status, ob.backend, ob.reason, ob.time = r
       print('  %-8s %-18s %6.2fs  %s  (line %s)' % (ob.status, ob.backend, ob.time, ob.name, ob.line))
       if ob.status != 'proved':
         print('      ', ob.desc, ob.reason)
